@@ -996,6 +996,8 @@ class CoseContext(AbstractContext):
                     tgt_blk.setfieldval('btsd', msg_dec[2])
                     # a parsed payload would put the plaintext back
                     # when the block is built
+                    # (the block type code it implied is kept)
+                    tgt_blk.setfieldval('type_code', tgt_blk.getfieldval('type_code'))
                     tgt_blk.remove_payload()
                     msg_dec[2] = None
 
@@ -1033,6 +1035,8 @@ class CoseContext(AbstractContext):
                     tgt_blk.setfieldval('btsd', msg_dec[2])
                     # a parsed payload would put the plaintext back
                     # when the block is built
+                    # (the block type code it implied is kept)
+                    tgt_blk.setfieldval('type_code', tgt_blk.getfieldval('type_code'))
                     tgt_blk.remove_payload()
                     msg_dec[2] = None
 
